@@ -44,8 +44,8 @@ class Sentences:
             if fn.startswith("probe_"):
                 return ""
             return self.r.choice(EXTERN_SAMPLES[fn])
-        if depth <= 0:
-            return self.expr(r.body, not r.has("no_skip_ws"), 0)
+        if depth < -6:
+            return ""
         return self.expr(r.body, not r.has("no_skip_ws"), depth)
 
     def in_range(self, a, b):
